@@ -134,7 +134,9 @@ class Generator:
                     # std::io -> crate::std_io
                     edits.append(Edit(t.start, toks[i + 2].end, "crate::std_io", None)); self.count("E3")
                     i += 3; continue
-                elif t.text in SHIM_METHODS and nxt == "(" and prev in (".", "::"):
+                elif t.text in SHIM_METHODS and nxt == "(" and (
+                        (prev == "." and not t.text.startswith("from_")) or
+                        (prev == "::" and t.text.startswith("from_") and toks[i - 2].text in INT_SIZES)):
                     edits.append(Edit(t.start, t.end, "verif_" + t.text, None)); self.count("E4")
             i += 1
         return edits
@@ -445,7 +447,15 @@ class Generator:
                 out.ins("        " + c.text + ",\n",
                         {"kind": kind, "fn": it.path, "idx": n, "tags": c.tags, "text": c.text, "where": c.line})
         group("requires", fs.requires)
-        group("ensures", fs.ensures)
+        if fs.assume_pre:
+            pre = " && ".join("(%s)" % c.text for c in fs.assume_pre)
+            wrapped = []
+            for c in fs.ensures:
+                w = vspec.Clause("ensures", c.tags, "(%s) ==> (%s)" % (pre, c.text), c.line)
+                wrapped.append(w)
+            group("ensures", wrapped)
+        else:
+            group("ensures", fs.ensures)
         if fs.decreases:
             out.ins("\n    decreases %s,\n" % fs.decreases)
 
@@ -524,6 +534,10 @@ class Generator:
                     order += 1
             if ls.decreases:
                 edits.append(Edit(pos, pos, "    decreases %s,\n" % ls.decreases, None, order))
+        if fs.assume_pre:
+            pre = " && ".join("(%s)" % c.text for c in fs.assume_pre)
+            edits.append(Edit(toks[bo].end, toks[bo].end, "\n proof { assume(%s); } /* call-site precondition, see @assume_pre */\n" % pre, None, 50))
+            self.report.setdefault("assume_pre", []).append({"fn": it.path, "pre": pre})
         for pn, p in enumerate(fs.proofs):
             meta = {"kind": "proof", "fn": it.path, "idx": pn, "tags": p.tags, "where": p.line}
             a = p.anchor
